@@ -47,7 +47,9 @@ const ruleText = "cases = (a) assign: 1..all exported config.Config fields (foun
 	"manifest (every strict prefix, or generated JSON damage) it must return an error and leave the recursive listing (sizes, hashes, " +
 	"mtimes) unchanged. non-trivial = an assignment within +-1 (one ulp for floats, <=1 character for strings) of a table boundary, or a " +
 	"truncation, or a stored mutation that removes/ill-types a constrained member or sets a near-boundary value, or an engine case whose " +
-	"writes cross the configured memtable size; distinct by FNV-64 of the case JSON"
+	"writes cross the configured memtable size, or a concurrent case (d: SaveManifest called repeatedly while 1-3 goroutines toggle one " +
+	"constrained field between a valid and an invalid value through Config.Update; a save that reports success must have stored a manifest " +
+	"that loads, a rejected save must leave the stored bytes alone, nothing may hang); distinct by FNV-64 of the case JSON"
 
 func TestMain(m *testing.M) {
 	ev.Silence()
@@ -106,6 +108,7 @@ type Case struct {
 	Dir    string  `json:"dir,omitempty"` // assign: fresh | empty | existing
 	Stored *Stored `json:"stored,omitempty"`
 	Engine *Engine `json:"engine,omitempty"`
+	Conc   *Conc   `json:"conc,omitempty"`
 }
 
 // Doc is the replay document.
@@ -119,7 +122,9 @@ type Doc struct {
 // Fail is an oracle failure.
 type Fail struct{ Sig, Msg string }
 
-func failf(sig, format string, a ...any) *Fail { return &Fail{Sig: sig, Msg: fmt.Sprintf(format, a...)} }
+func failf(sig, format string, a ...any) *Fail {
+	return &Fail{Sig: sig, Msg: fmt.Sprintf(format, a...)}
+}
 
 // ---------------------------------------------------------------------------
 // reflection helpers
@@ -613,6 +618,11 @@ func classify(c *Case) (bool, []string) {
 		if len(c.Sets) == 1 {
 			classes = append(classes, "assign:single_field")
 		}
+	case "concurrent":
+		if c.Conc != nil && c.Conc.Valid != "" && c.Conc.Invalid != "" {
+			nt = true
+			classes = append(classes, "concurrent:field_"+c.Conc.Field, fmt.Sprintf("concurrent:depth_%d", c.Conc.Depth))
+		}
 	case "stored":
 		if len(c.Sets) > 0 {
 			classes = append(classes, "stored:non_default_base")
@@ -669,6 +679,8 @@ func runCase(c *Case) *Fail {
 		return runAssign(c)
 	case "stored":
 		return runStored(c)
+	case "concurrent":
+		return runConc(c)
 	case "engine":
 		if c.Engine != nil && c.Engine.Mode == "valid" {
 			return runEngineValid(c)
